@@ -38,6 +38,18 @@ def congruent(x, y, L):
     return abs(d - round(d)) * L <= 1e-7 * max(1.0, L)
 
 
+def is_a(obj, name):
+    """class test that sees through the factory's aliases ("Alias (RealClass)")"""
+    return any(c.__name__ == name or ("(" + name + ")") in c.__name__ for c in type(obj).__mro__)
+
+
+def base_name(obj, names):
+    for n in names:
+        if is_a(obj, n):
+            return n
+    return None
+
+
 class Monitor(object):
     name = "base"
 
@@ -260,7 +272,8 @@ class Activation(Monitor):
             is_start = type(tagger).__name__.lower().startswith("startofrun") or "start_of_run" in getattr(tagger, "tag", "")
             if is_start:
                 continue
-            hname = type(tagger._event_handler_to_copy).__name__ if hasattr(tagger, "_event_handler_to_copy") else ""
+            hname = " ".join(c.__name__ for c in type(tagger._event_handler_to_copy).__mro__) \
+                if hasattr(tagger, "_event_handler_to_copy") else ""
             count_only = any(k in hname for k in ("EndOfChain", "Sampling", "EndOfRun", "Dumping", "Switcher", "StartOfRun"))
             if count_only:
                 if sum(have.values()) != sum(fresh.values()):
@@ -275,12 +288,13 @@ class Activation(Monitor):
         # C11
         if sh is not None:
             self.check_occupancy(activator, sh, active_state)
+            self.check_partition(activator, sh, active_state)
 
     def check_occupancy(self, activator, sh, active_state):
         from jellyfysh.base.node import yield_nodes_on_level_below
         roots = None
         for occ in getattr(activator, "_internal_states", []):
-            if type(occ).__name__ != "SingleActiveCellOccupancy":
+            if not is_a(occ, "SingleActiveCellOccupancy"):
                 continue
             if roots is None:
                 roots = sh.extract_global_state()
@@ -320,6 +334,53 @@ class Activation(Monitor):
                             self.rec.violate(self.name, "C11", "unit not recorded exactly once in the cell containing its position",
                                              {"identifier": ident, "position": list(unit.position), "recorded": [(k, str(c)) for k, c in w]})
 
+    def check_partition(self, activator, sh, active_state):
+        """C10: the targets of the cell-based event families partition the other relevant units of the cell level."""
+        from collections import Counter
+        from jellyfysh.base.node import yield_nodes_on_level_below
+        groups = {}
+        for tagger in activator._taggers:
+            occ = getattr(tagger, "_internal_state", None)
+            if occ is None or not is_a(occ, "SingleActiveCellOccupancy"):
+                continue
+            kinds = {"CellVetoTagger": "veto", "CellBoundingPotentialTagger": "bounding", "ExcludedCellsTagger": "near",
+                     "SurplusCellsTagger": "surplus"}
+            kind = kinds.get(base_name(tagger, list(kinds)))
+            if kind is None:
+                continue
+            if tagger.yield_identifiers_send_event_time is getattr(tagger, "_deactivated_yield_identifiers_send_event_time", None):
+                continue
+            groups.setdefault(id(occ), {"occ": occ})[kind] = tagger
+        roots = None
+        for g in groups.values():
+            occ = g["occ"]
+            if occ._active_unit_identifier is None or not (("veto" in g or "bounding" in g) and "near" in g and "surplus" in g):
+                continue
+            if roots is None:
+                roots = sh.extract_global_state()
+            active = tuple(occ._active_unit_identifier)
+            relevant = []
+            for root in roots:
+                for cnode in yield_nodes_on_level_below(root, occ.cell_level - 1):
+                    if occ._is_relevant_unit(cnode.value) and tuple(cnode.value.identifier) != active:
+                        relevant.append(tuple(cnode.value.identifier))
+            near = [tuple(t[1]) for t in g["near"].yield_identifiers_send_event_time(active_state)]
+            surplus = [tuple(t[1]) for t in g["surplus"].yield_identifiers_send_event_time(active_state)]
+            nearby = occ.cells.nearby_cells(occ._active_cell)
+            if "bounding" in g:
+                far = [tuple(o) for t in g["bounding"].yield_identifiers_send_event_time(active_state) for o in t[1:]]
+            else:   # cell veto: the walker proposes every cell that is not nearby; its occupants are the (implicit) targets
+                far = [tuple(o) for c in occ.cells.yield_cells() if c not in nearby for o in occ[c]]
+                if [tuple(t[0]) for t in g["veto"].yield_identifiers_send_event_time(active_state)] != [active]:
+                    self.rec.violate(self.name, "C10", "cell-veto tagger does not yield exactly the active unit", {"active": active})
+            self.rec.count("C10-partition")
+            got = Counter(near) + Counter(surplus) + Counter(far)
+            if got != Counter(relevant):
+                missing = sorted((Counter(relevant) - got).elements())[:4]
+                twice = sorted((got - Counter(relevant)).elements())[:4]
+                self.rec.violate(self.name, "C10", "cell-based event families do not partition the other relevant units",
+                                 {"active": active, "missed": missing, "treated_twice_or_foreign": twice, "call": self.calls})
+
     def before_commit(self, sh, out_state, n):
         med = CTX.get("mediator")
         if med is None:
@@ -328,7 +389,7 @@ class Activation(Monitor):
         snap = self.snap.get(h)
         if snap is None:
             return
-        name = type(h).__name__
+        name = " ".join(c.__name__ for c in type(h).__mro__)
         if not any(k in name for k in ("TwoLeafUnit", "TwoCompositeObject", "CellVeto", "FixedSeparations", "Bounding")):
             return
         now = flatten(sh.extract_global_state())
@@ -338,7 +399,7 @@ class Activation(Monitor):
             pos1, vel1, ts1, _, _ = now[k]
             if vel0 != vel1:
                 self.rec.violate(self.name, "C08", "committed event was computed with a velocity that is no longer current",
-                                 {"handler": name, "identifier": k, "then": vel0, "now": vel1, "commit": n})
+                                 {"handler": type(h).__name__, "identifier": k, "then": vel0, "now": vel1, "commit": n})
                 continue
             if vel0 is None:
                 same = all(abs(a - b) == 0 for a, b in zip(pos0, pos1))
@@ -347,7 +408,7 @@ class Activation(Monitor):
                 same = all(congruent(pos1[d], pos0[d] + vel0[d] * dt, L[d]) for d in range(len(pos0)))
             if not same:
                 self.rec.violate(self.name, "C08", "committed event was computed from a trajectory that is no longer current",
-                                 {"handler": name, "identifier": k, "then": pos0, "now": pos1, "commit": n})
+                                 {"handler": type(h).__name__, "identifier": k, "then": pos0, "now": pos1, "commit": n})
 
 
 class Sampling(Monitor):
